@@ -128,6 +128,27 @@ def work(item):
         t = terms.build(sh, f)
         built.append((label, sh, t, list(f.planted)))
     _, res = mc.run_cases(setup, [[["mathml", terms.doc(t)], ["speech"]] for _, _, t, _ in built])
+    # special literals: which slots of these shapes are not spoken with ORDINARY literals either (in this context)?  A miss there belongs to
+    # the slot and its context, not to the literal, and gets the ordinary key.
+    dead_ordinary = set()
+    if special:
+        shapes_ = {}
+        for label, sh, _, _ in built:
+            if label in special:
+                shapes_.setdefault(label.split("#")[0], sh)
+        ob = []
+        for base_label, sh in shapes_.items():
+            f = terms.Filler("num", mark)
+            ob.append((base_label, terms.build(sh, f), list(f.planted)))
+        _, ores = mc.run_cases(setup, [[["mathml", terms.doc(t)], ["speech"]] for _, t, _ in ob])
+        for (base_label, _, planted_), r_ in zip(ob, ores):
+            if is_ok(r_[0]) and is_ok(r_[1]):
+                need_ = literal_counts(planted_)
+                for k_, lit_ in enumerate(planted_):
+                    if occurrences(val(r_[1]), lit_, mark) < need_[lit_]:
+                        dead_ordinary.add((base_label, k_))
+            else:
+                dead_ordinary |= {(base_label, k_) for k_ in range(len(planted_))}
     # which operand slots are already missing when the construct stands alone (context-free defects of one rule)?
     ck = (lang, style, verb)
     if ck not in _ALONE:
@@ -167,7 +188,7 @@ def work(item):
             counts["literals_checked"] += 1
             got = occurrences(sp, lit, mark)
             if (got < need[lit] and label in special and special[label][0] == k and site_of(sh, k) not in alone
-                    and not [a for a in parent_of(sh, k).split(">") if a in alone]):
+                    and not [a for a in parent_of(sh, k).split(">") if a in alone] and (label.split("#")[0], k) not in dead_ordinary):
                 # the special literal itself: the value-dependent wording of this slot; keyed by slot and literal
                 viol.append((f"C04|{lang}|{style}|missing@{site_of(sh, k)}|literal:{special[label][1]}",
                              f"[{lang}/{style}/{verb}] {label}: literal {lit} (operand {site_of(sh, k)}) is not spoken: {sp!r}", replay))
